@@ -124,7 +124,24 @@ fn check_membership(rep: &mut Report, r: &MRange, probes: &[MVer], ctx: &serde_j
 
 /// conflict(r1 then r2) as the real code sees it
 fn real_conflict(r1: &MRange, r2: &MRange) -> Result<bool, String> {
-    let table = vec![ep("first", r1.clone()), ep("second", r2.clone())];
+    real_conflict_shaped(r1, r2, 0)
+}
+
+/// shape 0: both at /p; 1: the first at /p, the second at /p/{w:.*}; 2: the other way
+/// round (a request for exactly /p matches the wildcard with an empty remainder, so for
+/// that request the two are "the same method and path")
+fn real_conflict_shaped(r1: &MRange, r2: &MRange, shape: u8) -> Result<bool, String> {
+    let wild = |mut e: MEndpoint| {
+        e.segs.push(TSeg::Wild("w".into()));
+        e.visible = false;
+        e
+    };
+    let (a, b) = (ep("first", r1.clone()), ep("second", r2.clone()));
+    let table = match shape {
+        1 => vec![a, wild(b)],
+        2 => vec![wild(a), b],
+        _ => vec![a, b],
+    };
     match build_api(&table, &[0, 1]) {
         Ok(_) => Ok(false),
         Err((1, _)) => Ok(true),
@@ -188,6 +205,24 @@ fn check_conflict(rep: &mut Report, r1: &MRange, r2: &MRange, ctx: &serde_json::
     }
     if rep.want_sample() && want && !r1.is_all() && !r2.is_all() {
         rep.sample(json!({"kind": "conflict", "first": r1.show(), "second": r2.show(), "refused": ab}));
+    }
+    // the same pair as a route and the wildcard route below it, whichever comes first
+    if tagged.is_empty() {
+        for (shape, what) in [(1u8, "route-then-wildcard-child"), (2u8, "wildcard-child-then-route")] {
+            match real_conflict_shaped(r1, r2, shape) {
+                Ok(got) => {
+                    rep.eval(format!("conflict|{}x{}|{order}|{want}|{what}", r1.kind(), r2.kind()));
+                    if got != want {
+                        let w = if want { "overlap-not-detected" } else { "disjoint-ranges-refused" };
+                        rep.violate(
+                            format!("C05:{w}:{what}"),
+                            json!({"first": r1.show(), "second": r2.show(), "model_shares_version": want, "refused": got, "registered": what, "ctx": ctx}),
+                        );
+                    }
+                }
+                Err(e) => rep.violate("C05:first-of-pair-refused", json!({"r1": r1.show(), "r2": r2.show(), "shape": what, "error": e})),
+            }
+        }
     }
 }
 
